@@ -47,6 +47,33 @@ PROPS = {
                 'machine integers are NOT treated as mathematical: Verus checks i64/i32/u32 overflow bit-exactly',
                 'results built inside closures passed to Option::map (float arms of quotient / %) are opaque to Verus',
             ]},
+    'C03': {'groups': ['heap'],
+            'kani': [
+                {'harness': 'gc_state_from_u8', 'file': 'src/vm/gc.rs', 'kind': 'complete', 'what': 'State::from(u8) is the inverse of State::bits on 0..=2 (all bytes)'},
+                {'harness': 'gc_map_get', 'file': 'src/vm/gc.rs', 'kind': 'complete', 'what': 'Map::get returns the 2-bit field of the addressed cell for every byte content and index (map of 3 bytes), None past capacity: discharges the contract Verus assumes for Map::get'},
+                {'harness': 'gc_map_new_resize', 'file': 'src/vm/gc.rs', 'kind': 'bounded', 'bound': 'maps of at most 16 cells', 'what': 'Map::new / Map::resize: capacity, new cells free, old cells kept (contracts assumed on the Verus side)'},
+            ],
+            'assumptions': [
+                'scope: the collector mechanisms of heap.rs / gc.rs (Map, alloc, free, put, sweep, mark, mark_vcell); root enumeration in Vm::run_gc and the claim that run_one never dereferences a free cell are NOT decided',
+                'termination of mark / mark_vcell is not proved (exec_allows_no_decreases_clause)',
+                'mark_continuation, mark_lambda, Heap::grow, Map::get/new/resize: contracts assumed on the Verus side (Kani harnesses listed cover Map::get completely, new/resize bounded)',
+                'payload views vector_view/env_view and the child relations cont_kid/lambda_kid/vkid are uninterpreted; axiom_vkids defines vkid by cases (trusted)',
+                'interior-mutable payloads (Vector, LexicalEnvironment) are treated as values: nothing mutates them during a collection',
+                'no Symbol cell is written except through put/maybe_put (get_at_index_mut is outside the contract)',
+                'String keys obey vstd\'s hash-map key model (axiom_string_key); Rc::deref / as_ref / From<&String> specs assumed',
+            ]},
+    'C12': {'groups': ['heap'],
+            'assumptions': [
+                'only the second sentence is decided: immediately after sweep the allocated cells are exactly the cells marked before it (sweep contract), and marking marks nothing that is not reachable from a marked-from root is NOT proved (soundness of mark is the closure direction only)',
+                'heap growth policy / "stops growing" (first sentence) is not decided: it depends on f64 thresholds and histories',
+                'same trusted base as C03',
+            ]},
+    'C18': {'groups': ['heap'],
+            'assumptions': [
+                'decided: the intern-table invariant of Heap (every table entry is a live cell holding that name; every live symbol cell is its name\'s entry) is preserved by alloc, put, maybe_put, free and sweep, and put/maybe_put answer an interned name with the table\'s cell; lemma_intern_unique derives "same name iff same cell"',
+                'not decided: the symbol->string / string->symbol round trip (str code in builtin/symbol.rs and parse.rs); production routes other than Heap::put (reader, macro output) are assumed to go through put',
+                'same trusted base as C03',
+            ]},
     'C13': {'groups': ['run'], 'search': 'search_run',
             'assumptions': [
                 'run_one is a deterministic function of the observable machine state (heap, globals, stack, acc, ep, ip, bp): step_obs/step_kind/step_err are uninterpreted and run_one is assumed to implement them (its body is not verified here)',
